@@ -5,6 +5,7 @@ package main
 // instruction-effect extractor (ix.go) and a few direct rules.
 
 import (
+	"os"
 	"fmt"
 	"go/ast"
 	"go/constant"
@@ -151,6 +152,7 @@ func checkC09(c *Ctx) {
 	c.checkLoopScopeDepth("ES-S")
 	c.checkTailArity("C09-ARITY")
 	c.checkTailSelf("C09-SELF")
+	c.checkLastFormKeepsTail("C09-LAST")
 	c.checkSelfNameShadowing("C09-SHADOW")
 	c.checkGeneratorCtors("ES-CTOR")
 	c.checkRegisteredBeforeBody("C09-REG")
@@ -272,6 +274,84 @@ func checkC04(c *Ctx) {
 	c.checkStackmarkIdentity("C04-MARK")
 	c.checkGeneratorCtors("ES-CTOR")
 	c.checkParserStopOrder("C04-STOP")
+	c.checkArgRewriters("C04-ARGS")
+}
+
+// checkArgRewriters: C04-ARGS. A routine of the call machinery that rewrites the arguments of a call
+// on the data stack is told their number through a *int. Its contract, which CallFunction and the
+// tail-call preparation rely on: if it pushes a list of expressions back, it first popped exactly
+// *nargs expressions (a PopExpressions of the loaded count dominates the push), it adjusts the stack
+// by nothing else (no truncation), and it stores the length of what it pushed into *nargs.
+// Otherwise a call with named arguments (label + value per argument) leaves operands behind.
+func (c *Ctx) checkArgRewriters(rule string) {
+	popN := c.mustFn(rule, "Stack.PopExpressions")
+	pushN := c.mustFn(rule, "Stack.PushExpressions")
+	trunc := c.fn("Stack.TruncateToSize")
+	if popN == nil || pushN == nil {
+		return
+	}
+	n := 0
+	for _, f := range c.zygoFuncs() {
+		if f.Parent() != nil {
+			continue
+		}
+		// a parameter of type *int
+		var np *ssa.Parameter
+		for _, p := range f.Params {
+			if pt, ok := p.Type().(*types.Pointer); ok {
+				if bt, ok := pt.Elem().(*types.Basic); ok && bt.Kind() == types.Int {
+					np = p
+				}
+			}
+		}
+		pushes := callsOf(f, pushN)
+		if np == nil || len(pushes) == 0 {
+			continue
+		}
+		n++
+		okAll := true
+		why := ""
+		for _, ps := range pushes {
+			// (1) a pop of *nargs dominates
+			popped := false
+			for _, pp := range callsOf(f, popN) {
+				args := pp.Common().Args
+				if ld, ok := args[len(args)-1].(*ssa.UnOp); ok && ld.Op == token.MUL && ld.X == ssa.Value(np) && dominatesInstr(pp.(ssa.Instruction), ps.(ssa.Instruction)) {
+					popped = true
+				}
+			}
+			if !popped {
+				okAll, why = false, "the expressions are pushed back without a dominating PopExpressions(*nargs): what was on the stack for this call is not what is taken off"
+			}
+			// (3) *nargs = len(pushed)
+			pushed := ps.Common().Args[len(ps.Common().Args)-1]
+			stored := false
+			eachInstr(f, func(b *ssa.BasicBlock, i int, in ssa.Instruction) {
+				st, ok := in.(*ssa.Store)
+				if !ok || st.Addr != ssa.Value(np) {
+					return
+				}
+				if call, ok := st.Val.(*ssa.Call); ok {
+					if bi, ok := call.Call.Value.(*ssa.Builtin); ok && bi.Name() == "len" && len(call.Call.Args) == 1 && call.Call.Args[0] == pushed {
+						stored = true
+					}
+				}
+			})
+			if !stored {
+				okAll, why = false, "the count handed back in *nargs is not the length of the list that is pushed"
+			}
+		}
+		// (2) nothing else adjusts the stack
+		if trunc != nil && len(callsOf(f, trunc)) > 0 {
+			okAll, why = false, "the routine also truncates the data stack: its net effect is no longer `take *nargs off, put the rewritten list on`"
+		}
+		c.check(okAll, rule, fnName(f), "takes *nargs operands off and puts the rewritten list on", f.Pos(),
+			"PopExpressions(*nargs) dominates the push, nothing else adjusts the stack, and *nargs is set to the length of the pushed list",
+			"a routine that rewrites the arguments of a call on the data stack does not keep to `pop *nargs, push the list, *nargs = len(list)`: "+why+"; a call with named arguments made as a statement leaves operands on the data stack")
+	}
+	if n == 0 {
+		c.undecided(rule, "package", "argument rewriters", token.NoPos, "no routine with a *int argument count that pushes expressions back was found (FunctionCallNameTypeCheck confirmed by reading)")
+	}
 }
 
 func (c *Ctx) checkRunBrackets() {
@@ -890,4 +970,56 @@ func (c *Ctx) checkAppendSharing(rule string) {
 	}
 	c.check(n >= 3, rule, "package", "appends to array storage examined", token.NoPos,
 		fmt.Sprintf("%d append calls on the storage of a script array examined", n), fmt.Sprintf("only %d append calls on script array storage found", n))
+}
+
+// checkLastFormKeepsTail: C09-LAST. ES-T decides that the tail flag is not set where it must not
+// be; this rule is the other half: where the property promises constant space -- the last form of a
+// begin, let, letseq or newScope body -- the last sub-form is compiled with the flag the form itself
+// was entered with. In the abstract interpreter the flag is "definitely false" or "possibly true";
+// the only sources of "possibly true" inside a generator are the value it was entered with (or a
+// saved copy of it), so the last sub-form segment of every emission sequence of these generators
+// must carry "possibly true". A form that clears the flag for its body and restores it afterwards
+// compiles its tail call as an ordinary call: right value, stack growing with the depth.
+func (c *Ctx) checkLastFormKeepsTail(rule string) {
+	es := c.runES()
+	n := 0
+	for _, fn := range []string{"Generator.GenerateBegin", "Generator.GenerateLet", "Generator.GenerateNewScope", "Generator.GenerateCond", "Generator.GenerateShortCircuit"} {
+		seen := map[string]bool{}
+		found := false
+		for _, t := range es.templates {
+			if t.fn != fn || t.what != "return" {
+				continue
+			}
+			var last *atom
+			for _, a := range t.seq {
+				if a.kind == "Seg" {
+					last = a
+				}
+				if a.kind == "Rep" || a.kind == "Alt" {
+					// a trailing loop over the forms: not the shape of these generators' last form
+					last = nil
+				}
+			}
+			if last == nil || seen[seqString(t.seq)] {
+				continue
+			}
+			seen[seqString(t.seq)] = true
+			found = true
+			n++
+			c.check(last.tail == tailT || last.tailEnd, rule, fn, "last form compiled with the incoming tail flag", last.pos,
+				"the last sub-form of the body is compiled with the tail flag the form was entered with",
+				"the last form of the body is compiled with the tail flag cleared: a self call there is an ordinary call, so recursion through this form uses address, scope and data stack in proportion to its depth instead of running in constant space: "+seqString(t.seq))
+		}
+		if !found {
+			c.undecided(rule, fn, "last form compiled with the incoming tail flag", token.NoPos, "no emission sequence with a last sub-form derived for "+fn)
+		}
+	}
+	_ = n
+	if os.Getenv("ZY_ES_DUMP") != "" {
+		for _, t := range es.templates {
+			if strings.Contains(t.fn, os.Getenv("ZY_ES_DUMP")) && t.what == "return" {
+				fmt.Fprintf(os.Stderr, "TEMPLATE %s: %s\n", t.fn, seqString(t.seq))
+			}
+		}
+	}
 }
